@@ -281,4 +281,40 @@ theorem Rel.comp {R : L → M → Prop} {S : M → N → Prop} {T : L → N → 
 theorem Rel.atoms {R : L → M → Prop} {t : Tree L} {t' : Tree M} (h : Tree.Rel R t t') :
     t.atoms = t'.atoms := atoms_eq_of_skel h.1
 
+mutual
+/-- a traversal fails only with an error of its hook -/
+theorem traverse_error (f : σ → L → Except ε (M × σ)) (e : ε) (hf : ∀ s l, f s l ≠ .error e) :
+    ∀ (t : Tree L) (s : σ), traverse f s t ≠ .error e
+  | .atom a, s => by simp [traverse]
+  | .leaf l, s => by
+    simp only [traverse]
+    cases h : f s l with
+    | error e' => intro hc; simp only [Except.error.injEq] at hc; subst hc; exact hf s l h
+    | ok p => simp
+  | .node k ks, s => by
+    simp only [traverse]
+    cases h : traverseL f s ks with
+    | error e' =>
+      intro hc; simp only [Except.error.injEq] at hc; subst hc
+      exact traverseL_error f e' hf ks s h
+    | ok p => simp
+theorem traverseL_error (f : σ → L → Except ε (M × σ)) (e : ε) (hf : ∀ s l, f s l ≠ .error e) :
+    ∀ (ts : List (Tree L)) (s : σ), traverseL f s ts ≠ .error e
+  | [], s => by simp [traverseL]
+  | t :: ts, s => by
+    simp only [traverseL]
+    cases h1 : traverse f s t with
+    | error e' =>
+      intro hc; simp only [Except.error.injEq] at hc; subst hc
+      exact traverse_error f e' hf t s h1
+    | ok p =>
+      obtain ⟨t1, s1⟩ := p
+      simp only
+      cases h2 : traverseL f s1 ts with
+      | error e' =>
+        intro hc; simp only [Except.error.injEq] at hc; subst hc
+        exact traverseL_error f e' hf ts s1 h2
+      | ok q => simp
+end
+
 end Proofs.Refs
